@@ -38,7 +38,9 @@ func isLEA(r rune) bool   { return unicode.Is(ucd.LargeEastAsian, r) }
 func lineSig(r rune) string {
 	c := resolveLB1(r)
 	s := lineNames[c]
-	if (c == ucd.BreakOP || c == ucd.BreakCP) && isLEA(r) {
+	// (East Asian width is a rule input for OP and CP only, in LB30; it is kept for CM too, so that
+	// the enumeration separates "the LB9 base is wide" from "the rune just before is wide")
+	if (c == ucd.BreakOP || c == ucd.BreakCP || c == ucd.BreakCM) && isLEA(r) {
 		s += "+ea"
 	}
 	if isPicCn(r) {
